@@ -113,7 +113,7 @@ func TestC08Hops(t *testing.T) {
 	rec := evid.New(t, "C08", "frames a reader accepts (raw with arbitrary checksum/signature; dialect messages in canonical and every non-canonical encoding family) are passed through 1..4 hops of frame.Reader -> frame.Writer.Write with a dialect present or absent per hop; oracles: header fields preserved, bytes identical on dialect-less hops, reference-valid checksum for the payload actually sent on dialect hops, same decoded message at the next hop; non-trivial = dialect hop whose received payload differs from the canonical re-encoding; distinct by hash of (input bytes, hop configuration)")
 	rec.Require("fam-untruncated", "fam-partly-stripped", "fam-zero-tail-beyond-ext", "fam-nonzero-tail-beyond-ext", "fam-post-nul", "fam-empty-for-zero", "fam-raw-signed", "hop-without-dialect", "hop-with-dialect", "v1")
 	dpool := pool(t)
-	evid.Check(t, rec, evid.N(15000, 80000), func(t *rapid.T) {
+	evid.Check(t, rec, evid.N(60000, 250000), func(t *rapid.T) {
 		di := drawDialect(t, dpool)
 		var f ref.Frame
 		var lay *ref.Layout
